@@ -47,6 +47,11 @@ def run(chk):
     for fname, fam in fams:
         data = json.load(open(os.path.join(C.REPO, "coxeter/families/data", fname + ".json")))
         names = list(fam.names)
+        # "the order of names": names is the ordered list of the entries' names (indexable, comparable with a list), not merely an iterable
+        raw = fam.names
+        st_, ends = C.excname(lambda: (raw[0], raw[-1], len(raw)))
+        if not isinstance(raw, (list, tuple)) or st_ != "ok" or list(ends) != [names[0], names[-1], len(names)] or not (raw == names or raw == tuple(names)):
+            chk.violation("names-order", dict(family=fname, what="names is not the ordered list of entry names", type=type(raw).__name__, indexing=st_))
         if names != list(data.keys()) or len(set(names)) != len(names):
             chk.violation("names-order", dict(family=fname, what="names differ from the order of the data file or contain duplicates"))
         # an abandoned iteration must not disturb the next one, and a family can be iterated any number of times
